@@ -4,6 +4,7 @@ from vlib import run_pair
 PID = "C10"
 MODEL_VOS = ["model/Dispatch.vo"]
 ASSUMPTIONS = [
+    "configuration-dependent crash: driver e2e (-prop C10) gives every user record that passes validation (quota windows around and far beyond the time.Duration limit) registered counters and runs the quota check of an open-session request under recover() (oracle only)",
     "cryptography is abstract: which registered credential opens the metadata box and whether the payload box opens are inputs of the model (INT-CTXT makes 'no credential' the only other case)",
     "registered user names are non-empty (serveruser registry) - in the model discovery never returns the empty name",
     "queue contents, quota counters and network writes are oracle inputs (env); the theorems quantify over all their values, the driver runs with all of them true",
@@ -13,7 +14,8 @@ ASSUMPTIONS = [
 
 
 def run(ctx):
-    return [run_pair(ctx, "c10", PID, MODEL_VOS, faketime=True)]
+    return [run_pair(ctx, "c10", PID, MODEL_VOS, faketime=True),
+            run_pair(ctx, "e2e", PID, None, faketime=True, extra_args=["-prop", "C10"], subdir="e2e")]
 
 
 def search(ctx):
